@@ -2,7 +2,7 @@
 # used only when the deductive unit is undecided on the current tree, and as the native search for a concrete failing input.  Real function.
 # Oracle (C11): the copy is structurally equal to the value and shares NO mutable object with it (walk over lists, dicts, sets, object __dict__s),
 # so that changing what was handed out cannot change what is stored; the only other outcome is an ordinary exception.
-# Bound: 14 value shapes - scalars, nested lists / dicts, shared sub-objects, objects with attributes, an object whose __deepcopy__ / __copy__
+# Bound: 16 value shapes - scalars, nested lists / dicts, shared sub-objects, objects with attributes, an object whose __deepcopy__ / __copy__
 # return itself, an object holding a lock (not copyable member by member), bytes, tuples of lists, an empty container of each kind.
 # exit 0 clean, 1 violated (prints the case).
 import json
@@ -40,7 +40,7 @@ class WithLock(object):
 def shapes():
     shared = [1, 2]
     return [('int', 5), ('str', 'text'), ('none', None), ('empty list', []), ('empty dict', {}), ('nested list', [1, [2, [3, 4]], {'k': [5]}]),
-            ('nested dict', {'a': {'b': [1, 2]}, 'c': [{'d': 1}]}), ('shared sub-object', {'x': shared, 'y': shared}), ('tuple of lists', ([1], [2, 3])),
+            ('nested dict', {'a': {'b': [1, 2]}, 'c': [{'d': 1}]}), ('tuple', (1, 'a')), ('dict with a tuple', {'k': (1, 2)}), ('shared sub-object', {'x': shared, 'y': shared}), ('tuple of lists', ([1], [2, 3])),
             ('object', Plain([1, 2, 3])), ('list of objects', [Plain([1]), Plain([2])]), ('object copying to itself', SelfCopy([1, 2])),
             ('object with a lock', WithLock([7, 8])), ('bytes', b'\x00\x01\n')]
 
@@ -64,6 +64,21 @@ def mutables(v, seen=None):
     return seen
 
 
+def same(a, b):
+    """structurally equal, types included (a tuple stays a tuple, an object stays an object of its class)"""
+    if type(a) is not type(b):
+        return False
+    if isinstance(a, dict):
+        return set(a) == set(b) and all(same(a[k], b[k]) for k in a)
+    if isinstance(a, (list, tuple)):
+        return len(a) == len(b) and all(same(x, y) for x, y in zip(a, b))
+    if isinstance(a, (Plain, SelfCopy)):
+        return same(vars(a), vars(b))
+    if isinstance(a, WithLock):
+        return same(a.items, b.items)
+    return a == b
+
+
 def fail(d):
     print(json.dumps(d, default=repr)); sys.exit(1)
 
@@ -74,9 +89,11 @@ for name, v in shapes():
     try:
         c = pickle_copy(v)
     except Exception as ex:          # an ordinary exception is the other allowed outcome (the caller records the live value with a warning, or fails the capture)
-        if name in ('int', 'str', 'none', 'empty list', 'empty dict', 'nested list', 'nested dict', 'shared sub-object', 'object', 'list of objects', 'bytes'):
+        if name in ('int', 'str', 'none', 'empty list', 'empty dict', 'nested list', 'nested dict', 'tuple', 'dict with a tuple', 'shared sub-object', 'object', 'list of objects', 'bytes'):
             fail({'what': 'pickle_copy raises on a plain serialisable value', 'value': name, 'raised': repr(ex)})
         continue
+    if not same(v, c):
+        fail({'what': 'the copy is not structurally equal to the value (types included)', 'value': name, 'copy': repr(c)[:200]})
     common = set(mutables(v)) & set(mutables(c))
     if common:
         fail({'what': 'the copy shares a mutable object with the original: changing what was handed out changes what is stored', 'value': name,
@@ -86,5 +103,5 @@ for name, v in shapes():
     a = r.get_data('k'); b = r.get_data('k')
     if set(mutables(a)) & set(mutables(b)) or set(mutables(a)) & set(mutables(v)):
         fail({'what': 'two reads of one recording entry share a mutable object (with each other or with the stored value)', 'value': name})
-print(json.dumps({'bound': '14 value shapes incl. self-copying objects and objects with uncopyable members; copy and two recording reads', 'cases': n}))
+print(json.dumps({'bound': '16 value shapes incl. self-copying objects and objects with uncopyable members; copy and two recording reads', 'cases': n}))
 sys.exit(0)
